@@ -32,6 +32,7 @@ def obligations(tier, kind='inner', mode='rows', prefix='inner'):
     sizes = [(2, 2), (1, 2), (2, 1), (0, 2), (2, 0), (0, 0), (1, 1), (1, 3), (3, 1)]
     for nl, nr in sizes:
         add(nl, nr)
+    add(3, 2, W=0, nones=False)      # a left key repeated at non-adjacent rows with both keys matched on the right needs 3x2
     add(2, 2, K=2, nones=False)
     add(2, 2, W=0)
     add(2, 2, W=2)
